@@ -390,4 +390,133 @@ theorem expectedParam_full (n : Nat) (p : Param α β) (hwf : p.wf n = true)
       rw [hcnt (by simpa using hd) hc]; simp
     · rfl
 
+
+/-! ### subsetting a subset -/
+
+/-- the parameter as the decoder gives it back after the subset has been encoded -/
+def reParam (sel : List Int) (p : Param α β) : Param α β := { p with value := expectedParam sel p }
+
+theorem rebuild_expected (sel : List Int) (m : Msg α β) :
+    rebuild m (expected sel m) = m.map (·.map (reParam sel)) := by
+  simp only [rebuild, expected, List.zipWith_map_right, List.zipWith_self]
+  rfl
+
+theorem lastNSubsets_mem {l : List (Param α β)} {p : Param α β} (h : lastNSubsets l = some p) :
+    p ∈ l ∧ p.isNSubsets = true := by
+  induction l with
+  | nil => simp [lastNSubsets] at h
+  | cons q qs ih =>
+    simp only [lastNSubsets] at h
+    split at h
+    · rename_i r hr
+      cases h
+      exact ⟨List.mem_cons_of_mem _ (ih hr).1, (ih hr).2⟩
+    · split at h
+      · rename_i hq; cases h; exact ⟨by simp, hq⟩
+      · cases h
+
+theorem lastNSubsets_map (f : Param α β → Param α β) (hf : ∀ p, (f p).name = p.name)
+    (l : List (Param α β)) : lastNSubsets (l.map f) = (lastNSubsets l).map f := by
+  induction l with
+  | nil => rfl
+  | cons q qs ih =>
+    simp only [List.map_cons, lastNSubsets, ih]
+    cases lastNSubsets qs with
+    | some r => rfl
+    | none =>
+      simp only [Option.map_none, Param.isNSubsets, hf]
+      split <;> simp [*]
+
+theorem wf_mem {n : Nat} {m : Msg α β} (hwf : m.wf n = true) {p : Param α β} (hp : p ∈ m.flatten) :
+    p.wf n = true := by
+  simp only [Msg.wf, List.all_eq_true] at hwf
+  obtain ⟨s, hs, hps⟩ := List.mem_flatten.mp hp
+  exact hwf s hs p hps
+
+theorem nSubsets_rebuild (sel : List Int) (m : Msg α β) (n : Nat)
+    (hn : m.nSubsets? = some (n : Int)) (hwf : m.wf n = true) :
+    Msg.nSubsets? (m.map (·.map (reParam sel))) = some (sel.length : Int) := by
+  unfold Msg.nSubsets? at *
+  rw [← List.map_flatten, lastNSubsets_map (reParam sel) (fun _ => rfl)]
+  cases hl : lastNSubsets m.flatten with
+  | none => simp [hl] at hn
+  | some p =>
+    simp only [hl] at hn
+    obtain ⟨hpm, hpn⟩ := lastNSubsets_mem hl
+    have hpw := wf_mem hwf hpm
+    cases hv : p.value with
+    | int k =>
+      have hd : p.isData = false := by
+        cases hd : p.isData with
+        | false => rfl
+        | true => simp [Param.wf, hd, hv] at hpw
+      simp [reParam, expectedParam, hd, hpn]
+    | other v => simp [hv] at hn
+    | data r => simp [hv] at hn
+
+theorem wf_reParam (sel : List Int) (n : Nat) (p : Param α β) (h : p.wf n = true) :
+    (reParam sel p).wf sel.length = true := by
+  simp only [Param.wf, reParam, expectedParam, Param.isData] at *
+  by_cases hd : (p.type == templateDataType) = true
+  · simp only [hd, if_true] at h ⊢
+    cases hv : p.value with
+    | data rows => simp
+    | int k => simp [hv] at h
+    | other v => simp [hv] at h
+  · simp only [hd]
+    rfl
+
+theorem wf_rebuild (sel : List Int) (m : Msg α β) (n : Nat) (hwf : m.wf n = true) :
+    Msg.wf sel.length (m.map (·.map (reParam sel))) = true := by
+  simp only [Msg.wf, List.all_eq_true] at hwf
+  simp only [Msg.wf, List.all_map, List.all_eq_true, Function.comp_apply]
+  intro s hs p hp
+  exact wf_reParam sel n p (hwf s hs p hp)
+
+/-- on the positions of a strictly increasing list, `getD` is strictly increasing -/
+theorem getD_strictMono {sel : List Int} (hs : sel.Pairwise (· < ·)) {a b : Int}
+    (ha : 0 ≤ a) (hab : a < b) (hb : b < (sel.length : Int)) :
+    sel.getD a.toNat 0 < sel.getD b.toNat 0 := by
+  have h1 : a.toNat < sel.length := by omega
+  have h2 : b.toNat < sel.length := by omega
+  rw [List.getD_eq_getElem?_getD, List.getD_eq_getElem?_getD, List.getElem?_eq_getElem h1,
+    List.getElem?_eq_getElem h2]
+  exact List.pairwise_iff_getElem.mp hs _ _ h1 h2 (by omega)
+
+theorem sortedDistinct_map_getD (sel jdxs : List Int) (hs : sel.Pairwise (· < ·))
+    (hjr : ∀ j ∈ jdxs, 0 ≤ j ∧ j < (sel.length : Int)) :
+    sortedDistinct (jdxs.map fun j => sel.getD j.toNat 0) =
+      (sortedDistinct jdxs).map fun j => sel.getD j.toNat 0 := by
+  apply pairwise_lt_ext (pairwise_sortedDistinct _)
+  · rw [List.pairwise_map]
+    apply List.Pairwise.imp_of_mem _ (pairwise_sortedDistinct jdxs)
+    intro a b ha hb hab
+    have ha' := hjr a (mem_sortedDistinct.mp ha)
+    have hb' := hjr b (mem_sortedDistinct.mp hb)
+    exact getD_strictMono hs ha'.1 hab hb'.2
+  · intro x
+    simp only [mem_sortedDistinct, List.mem_map]
+
+theorem expectedParam_compose (sel sj : List Int) (p : Param α β)
+    (hsj : ∀ j ∈ sj, 0 ≤ j ∧ j < (sel.length : Int)) :
+    expectedParam sj (reParam sel p) = expectedParam (sj.map fun j => sel.getD j.toNat 0) p := by
+  simp only [reParam, expectedParam, Param.isData, Param.isNSubsets]
+  by_cases hd : (p.type == templateDataType) = true
+  · simp only [hd, if_true]
+    cases hv : p.value with
+    | data rows =>
+      simp only [List.map_map]
+      congr 1
+      apply List.map_congr_left
+      intro j hj
+      have := hsj j hj
+      have h1 : j.toNat < sel.length := by omega
+      simp [List.getD_eq_getElem?_getD, h1]
+    | int k => rfl
+    | other v => rfl
+  · simp only [hd]
+    by_cases hc : (p.name == nSubsetsName) = true
+    · simp [hc]
+    · simp [hc]
+
 end Bufr.Subset
